@@ -1,6 +1,6 @@
 import os, re
 from kanirun import H, FAST
-from mirsym import mir, smt
+from mirsym import mir, smt, modeb
 from mirsym_run import Q
 from common import *
 
@@ -65,5 +65,61 @@ def replay_many(model, fnd, prop):
     return None, path, "native replay inconclusive (rc=%s)" % rc
 
 
+def build_decoders(fns):
+    """the chunk decoders take everything they use from the chunk header they read: the header is read completely (read_exact),
+    the payload is decompressed with the header's scheme, and the unpacked length is compared with the header before Ok"""
+    sc = smt.Script("c07_decoder_discipline")
+
+    def cfg(pat):
+        return modeb.CFG(mir.find_fn(fns, pat))
+    RES = r"FromResidual<.*>>::from_residual$"
+    # synchronous payload decoder
+    g = cfg(r"^cas_chunk_format::deserialize_chunk_to_writer$")
+    dec = g.blocks_calling(r"CompressionScheme::decompress_from_reader")
+    sch = g.blocks_calling(r"CASChunkHeader::get_compression_scheme$")
+    hdr = g.blocks_calling(r"cas_chunk_format::deserialize_chunk_header")
+    tk = g.blocks_calling(r"Read>::take$")
+    ul = g.blocks_calling(r"CASChunkHeader::get_uncompressed_length$")
+    cl = g.blocks_calling(r"CASChunkHeader::get_compressed_length$")
+    if not (dec and sch and hdr and tk and ul and cl):
+        raise LookupError("sync chunk decoder shape not recognised (%s)" % [dec, sch, hdr, tk, ul, cl])
+    modeb.no_path_query(g, sc, "sync decoder: the payload is decompressed only with a scheme obtained from the header", [g.entry], dec, sch)
+    modeb.no_path_query(g, sc, "sync decoder: the header is read before anything else is used", [g.entry], dec + tk, hdr)
+    modeb.no_path_query(g, sc, "sync decoder: the payload reader is limited (take) after the compressed length was read from the header", [g.entry], dec, tk)
+    modeb.no_path_query(g, sc, "sync decoder: the limit is set only after the compressed length was read", [g.entry], tk, cl)
+    modeb.no_path_query(g, sc, "sync decoder: Ok only after the unpacked length was compared with the header", modeb.after(g, dec), sorted(g.real_returns), ul + g.blocks_calling(RES))
+    modeb.no_path_query(g, sc, "witness: sync decoder Ok return reachable", [g.entry], sorted(g.real_returns), g.blocks_calling(RES), expect="sat", kind="witness")
+    # async payload decoder
+    g = cfg(r"^deserialize_async::deserialize_chunk_to_writer::\{closure#0\}$")
+    dec = g.blocks_calling(r"CompressionScheme::decompress_from_slice$")
+    sch = g.blocks_calling(r"CASChunkHeader::get_compression_scheme$")
+    rx = g.blocks_calling(r"AsyncReadExt>::read_exact")
+    cl = g.blocks_calling(r"CASChunkHeader::get_compressed_length$")
+    if not (dec and sch and rx and cl):
+        raise LookupError("async chunk decoder shape not recognised (%s)" % [dec, sch, rx, cl])
+    modeb.no_path_query(g, sc, "async decoder: the payload is decompressed only with a scheme obtained from the header", [g.entry], dec, sch)
+    modeb.no_path_query(g, sc, "async decoder: the payload is read completely (read_exact) before it is decompressed", [g.entry], dec, rx)
+    modeb.no_path_query(g, sc, "async decoder: the payload buffer is sized after the compressed length was read from the header", [g.entry], rx, cl)
+    modeb.no_path_query(g, sc, "witness: async decoder reaches the decompression", [g.entry], dec, [], expect="sat", kind="witness")
+    # header readers
+    for label, pat, rpat in (("sync", r"^cas_chunk_format::deserialize_chunk_header$", r"Read>::read_exact$"),
+                             ("async", r"^deserialize_async::deserialize_chunk_header::\{closure#0\}$", r"AsyncReadExt>::read_exact")):
+        g = cfg(pat)
+        rx = g.blocks_calling(rpat)
+        anyread = [b for b in g.nodes if g.callee(b) and re.search(r"Read(Ext)?>::read(_buf|_vectored|_to_end)?$", g.callee(b))]
+        if not rx:
+            sc.query("%s header reader: the header bytes are read with read_exact" % label, ["true"])
+            continue
+        modeb.no_path_query(g, sc, "%s header reader: Ok only after the 8 header bytes were read completely (read_exact)" % label, [g.entry], sorted(g.real_returns), rx + g.blocks_calling(RES))
+        sc.query("%s header reader: no partial read call is used" % label, ["false"] if not anyread else ["true"])
+        modeb.no_path_query(g, sc, "witness: %s header reader returns" % label, [g.entry], sorted(g.real_returns), [], expect="sat", kind="witness")
+    return [sc]
+
+
 SMT = [Q("c07_footer_read_loops", "footer parser reads as many entries as declared", "cas_object", build_footer_loops,
-         functions=["cas_object::cas_object_format::CasObjectInfoV1::deserialize"], bounds="structure of the function", replay=replay_many, solvers=("z3",))]
+         functions=["cas_object::cas_object_format::CasObjectInfoV1::deserialize"], bounds="structure of the function", replay=replay_many, solvers=("z3",)),
+       Q("c07_decoder_discipline", "chunk decoders read the whole header and decode the payload by the header (Mode B)", "cas_object", build_decoders,
+         functions=["cas_object::cas_chunk_format::deserialize_chunk_to_writer", "cas_object::cas_chunk_format::deserialize_chunk_header",
+                    "cas_object::deserialize_async::deserialize_chunk_to_writer", "cas_object::deserialize_async::deserialize_chunk_header"], bounds="all CFG paths",
+         solvers=("z3", "cvc5-bv"),
+         replay=native_test("c07_decoder_agreement", "C07 violated", "native replay passes: sync / async / stream decoders return the serialized bytes (equal-length LZ4 frame, split headers)"))]
